@@ -28,7 +28,7 @@ def stunAttr (v : Bytes) : Option (StunAttr × Nat) :=
     some (.changeRequest ((rdBE (slice v 4 4)) / 2 % 2 = 1), len)
   else some (.generic, len)
 
-/-- `get_attributes`: `while i + 4 < data.len()` -/
+/-- `get_attributes`: `while i + 4 < data.len()`; each step skips the attribute padded to 4 bytes (D13 fix) -/
 def stunAttrs : Nat → Bytes → Option (List StunAttr)
   | 0, _ => some []        -- fuel (never exhausted: every step drops ≥ 4 bytes)
   | fuel + 1, d =>
@@ -36,7 +36,7 @@ def stunAttrs : Nat → Bytes → Option (List StunAttr)
       match stunAttr d with
       | none => none
       | some (a, len) =>
-        match stunAttrs fuel (d.drop (4 + len)) with
+        match stunAttrs fuel (d.drop (4 + (len + 3) / 4 * 4)) with
         | none => none
         | some l => some (a :: l)
     else some []
